@@ -100,7 +100,9 @@ class Gen:
                 self.features.add("blank")
             elif k < 0.8:
                 self.o.ws(indent)
-                self.o.comment(self.line_comment("note " + self.r.choice(["{", "}", "(", "def x():", "nocl later", "x"])))
+                # a marker on a line of its own marks nothing: only the line of a function's name counts
+                self.o.comment(self.line_comment(self.r.choice(["note {", "note }", "note (", "note def x():", "note nocl later",
+                                                                "note x", "nocl", "NOCL: generated"])))
                 self.o.nl()
                 self.features.add("comment-line")
             elif self.lang != "Python":
@@ -115,7 +117,9 @@ class Gen:
     def trailing(self):
         if self.opts["comments"] and self.r.random() < 0.08:
             self.o.ws("  ")
-            self.o.comment(self.line_comment("trailing }"))
+            # none of these is a suppression marker: the marker must open the comment
+            self.o.comment(self.line_comment(self.r.choice(["trailing }", "keep the monocle clean", "honours noclobber",
+                                                            "not a NOCL marker", "see nocl below"])))
             self.features.add("trailing-comment")
         if self.r.random() < 0.05:
             self.o.ws("   ")                      # trailing white space
@@ -252,11 +256,21 @@ class Gen:
         elif L == "TypeScript" and self.r.random() < 0.4:
             self.o.code(":", own)
             self.o.ws(" ")
-            self.o.code(self.r.choice(["number", "void", "Promise<void>", "string[]"]), own)
+            rt = self.r.choice(["number", "void", "Promise<void>", "string[]",
+                                "Promise<Map<string, Array<Record<string, number>>>>",
+                                "Map<string, Map<string, Array<Promise<Record<string, Array<number>>>>>>"])
+            self.o.code(rt, own)
             self.features.add("return-type")
+            if len(rt) > 30:
+                self.features.add("long-return-type")       # the brace lies more than 16 tokens after the ")"
         elif L == "Java" and self.r.random() < 0.2:
             self.o.ws(" ")
-            self.o.code("throws IOException, Other", own)
+            if self.r.random() < 0.4:
+                self.o.code("throws java.io.IOException, java.lang.InterruptedException, "
+                            "java.util.concurrent.TimeoutException, Other", own)
+                self.features.add("long-throws")             # the brace lies more than 16 tokens after the ")"
+            else:
+                self.o.code("throws IOException, Other", own)
             self.features.add("throws")
         self.open_brace(own, indent)
         self.trailing()
